@@ -110,7 +110,8 @@ func knownWitnesses(c *Ctx) []*vcase {
 	ar := &TSpec{Kind: "array", Elems: []*TSpec{{Kind: "record", Fields: []TField{{Name: "x", Type: Prim(zed.IDInt64)}, {Name: "y", Type: Prim(zed.IDInt64)}}}}}
 	out = append(out, &vcase{Label: "nested-record-partial-load", Types: []*TSpec{ar}, Paths: [][]string{{"x"}},
 		Seq: seqOf(0, []*VVal{VCont(VCont(VPrim(zed.EncodeInt(1)), VPrim(zed.EncodeInt(2))))})})
-	// net column in plain encoding (more than MaxDictSize distinct values)
+	// net column in plain encoding (more than MaxDictSize distinct values): panicked until
+	// /repo 496cea1e9 (finding C03:vector-path:net-column-panic, now fixed); kept as a regression case
 	var nets []*VVal
 	for j := 0; j < 257; j++ {
 		nets = append(nets, VPrim(g.PrimBytes(zed.IDNet, j)))
